@@ -822,7 +822,7 @@ func ruleNotificationErrorsDropped(c *chk.Ctx, d *dispatchModel) {
 		if len(r.Results) != 2 {
 			continue
 		}
-		ev := ir.ReturnResult(r, 1)
+		ev := ir.NormCell(ir.ReturnResult(r, 1))
 		fromHandler := false
 		for _, src := range c.P.SourcesStop(ev, func(x ssa.Value) bool { return ir.IsExtractOf(x, hcall, 1) }) {
 			if ir.IsExtractOf(src, hcall, 1) {
@@ -874,7 +874,7 @@ func ruleSemaphore(c *chk.Ctx, d *dispatchModel) {
 		c.Fail("PAIR.sem", f, "acquire", f.Pos(), "the function that calls handlers does not acquire the server's semaphore")
 		return
 	}
-	sameErr := func(x ssa.Value) bool { return x == ssa.Value(acq) }
+	sameErr := func(x ssa.Value) bool { return x == ssa.Value(acq) || ir.NormCell(x) == ssa.Value(acq) }
 	okDom := ir.InstrDominates(acq, d.handlerCall) && ir.ProvesNil(ir.CondsAt(d.handlerCall.Block()), sameErr)
 	c.Check(okDom, "PAIR.sem", f, "handler under a slot", d.handlerCall.Pos(), "the handler call is dominated by the err == nil edge of sem.Acquire", "the handler can run without a successfully acquired semaphore slot (also when the waiter was cancelled)")
 	w, _ := ir.ConstInt(acq.Call.Args[2])
@@ -933,20 +933,21 @@ func ruleSemaphore(c *chk.Ctx, d *dispatchModel) {
 	}
 	// start from the first instruction of the success successor
 	var succ *ssa.BasicBlock
-	for _, r := range *acq.Referrers() {
-		if bo, ok := r.(*ssa.BinOp); ok {
-			for _, r2 := range *bo.Referrers() {
-				if iff, ok := r2.(*ssa.If); ok {
-					_, eq, _ := ir.NilCompare(bo)
-					if eq {
-						succ = iff.Block().Succs[0]
-					} else {
-						succ = iff.Block().Succs[1]
-					}
-				}
-			}
+	ir.Instrs(f, func(i2 ssa.Instruction) {
+		iff, ok := i2.(*ssa.If)
+		if !ok || succ != nil {
+			return
 		}
-	}
+		x, eq, ok := ir.NilCompare(iff.Cond)
+		if !ok || !sameErr(x) || !ir.InstrDominates(acq, iff) {
+			return
+		}
+		if eq {
+			succ = iff.Block().Succs[0]
+		} else {
+			succ = iff.Block().Succs[1]
+		}
+	})
 	if succ == nil || len(succ.Instrs) == 0 {
 		c.Undecided("PAIR.sem", f, "release on all paths", acq.Pos(), "cannot find the success edge of Acquire")
 	} else {
@@ -1420,8 +1421,14 @@ func ruleBatchFlagChain(c *chk.Ctx, d *dispatchModel) {
 		why := "the flag is not a phi of constants"
 		// the flag may be the comparison itself: firstByte(data) == '['
 		if bo, ok := ir.NormCell(st.Val).(*ssa.BinOp); ok && bo.Op == token.EQL {
-			if kk, isC := ir.ConstInt(bo.Y); isC && kk == '[' {
-				if call, isCall := bo.X.(*ssa.Call); isCall && call.Call.StaticCallee() != nil && c.P.InRepo[call.Call.StaticCallee()] {
+			kk, isC := ir.ConstInt(bo.Y)
+			other := bo.X
+			if !isC {
+				kk, isC = ir.ConstInt(bo.X)
+				other = bo.Y
+			}
+			if isC && kk == '[' {
+				if call, isCall := other.(*ssa.Call); isCall && call.Call.StaticCallee() != nil && c.P.InRepo[call.Call.StaticCallee()] {
 					good, isPhi = true, false
 				}
 			}
@@ -1438,11 +1445,13 @@ func ruleBatchFlagChain(c *chk.Ctx, d *dispatchModel) {
 				// is this edge on the array branch? (first byte compared with '[')
 				array := false
 				for _, cd := range ir.EdgeConds(phi.Block().Preds[i], phi.Block()) {
-					if bo, ok := cd.V.(*ssa.BinOp); ok {
-						if kk, isC := ir.ConstInt(bo.Y); isC && kk == '[' {
-							if (bo.Op == token.NEQ && !cd.Truth) || (bo.Op == token.EQL && cd.Truth) {
-								array = true
-							}
+					if x, y, op, ok := ir.Rel(cd); ok && op == token.EQL {
+						kk, isC := ir.ConstInt(y)
+						if !isC {
+							kk, isC = ir.ConstInt(x)
+						}
+						if isC && kk == '[' {
+							array = true
 						}
 					}
 				}
